@@ -187,6 +187,71 @@ theorem exec_refines_with_rejected (ops : List OpA) (hv : ValidOps sizes (accept
   rw [(runA_accepted wb fuel _ ops).2]
   exact exec_refines wb fuel sizes (accepted ops) hv
 
+/-! ### the public API, without a side condition -/
+
+theorem resolveAllIn_sheets (titles : List (List Char)) (n : Nat) (batch : List (Addr × Val)) (b : List (Uid × Val))
+    (h : resolveAllIn titles n batch = some b) : ∀ uv ∈ b, uv.1.sheet < n := by
+  induction batch generalizing b with
+  | nil => simp only [resolveAllIn, Option.some.injEq] at h; subst h; simp
+  | cons av rest ih =>
+    obtain ⟨a, v⟩ := av
+    simp only [resolveAllIn] at h
+    cases hr : resolveIn titles n a with
+    | none => rw [hr] at h; simp at h
+    | some u =>
+      cases hb : resolveAllIn titles n rest with
+      | none => rw [hr, hb] at h; simp at h
+      | some b' =>
+        rw [hr, hb] at h
+        simp only [Option.some.injEq] at h
+        subst h
+        intro uv hm
+        rcases List.mem_cons.mp hm with rfl | hm'
+        · simp only [resolveIn] at hr
+          cases hx : resolve titles a with
+          | none => rw [hx] at hr; simp at hr
+          | some u' =>
+            rw [hx] at hr
+            simp only at hr
+            split at hr
+            · simp only [Option.some.injEq] at hr; subst hr; assumption
+            · simp at hr
+        · exact ih b' hb uv hm'
+
+/-- every write that the executor ACCEPTS lies on a sheet of the workbook: the side condition of `exec_refines` holds for
+    every history of API calls -/
+theorem compiled_valid (titles : List (List Char)) (calls : List Call) :
+    ValidOps sizes (accepted (calls.map (compileCall titles sizes.length))) := by
+  induction calls with
+  | nil => intro u hu; simp [accepted, allWriteUids] at hu
+  | cons c rest ih =>
+    intro u hu
+    cases c with
+    | setCells batch =>
+      simp only [List.map_cons, compileCall] at hu
+      cases hb : resolveAllIn titles sizes.length batch with
+      | none => rw [hb] at hu; simp only [accepted] at hu; exact ih u hu
+      | some b =>
+        rw [hb] at hu
+        simp only [accepted, allWriteUids, List.mem_append, List.mem_map] at hu
+        rcases hu with ⟨uv, hm, rfl⟩ | hu
+        · exact resolveAllIn_sheets titles sizes.length batch b hb uv hm
+        · exact ih u hu
+    | get u' => simp only [List.map_cons, compileCall, accepted, allWriteUids] at hu; exact ih u hu
+    | gets us => simp only [List.map_cons, compileCall, accepted, allWriteUids] at hu; exact ih u hu
+    | sheet s => simp only [List.map_cons, compileCall, accepted, allWriteUids] at hu; exact ih u hu
+
+/-- **C04 for the public API** (every workbook, every list of sheet titles, every history of `set_cells` calls with
+    addresses as the caller writes them - resolvable or not, on a sheet of the workbook or not - and of queries): every
+    answer is what a fresh evaluation reports for the workbook edited by the ACCEPTED writes.  No side condition is left. -/
+theorem exec_refines_calls (titles : List (List Char)) (calls : List Call) :
+    answers (runA wb fuel (ExecState.init sizes) (calls.map (compileCall titles sizes.length))).2 =
+      specRun (bodyOf wb) fuel sizes [] (accepted (calls.map (compileCall titles sizes.length))) :=
+  exec_refines_with_rejected wb fuel sizes _ (compiled_valid sizes titles calls)
+
+/-- non-vacuity: a sheet number the workbook does not have rejects the batch -/
+example : compileCall ["S".toList] 1 (.setCells [(.num 0 5 7, .int 9), (.num 9 0 0, .int 2)]) matches .rejected := by decide
+
 /-- non-vacuity: an unknown title rejects the batch whatever stands before it -/
 example : setCellsAddr ["S".toList] (ExecState.init [(2, 2)]) [(.num 0 5 7, .int 9), (.named "nope".toList 0 0, .int 2)] =
     (ExecState.init [(2, 2)], false) :=
